@@ -509,3 +509,15 @@ func (o *Observer) crossKind(n datamodel.Node, k datamodel.Kind, path string) {
 		}
 	})
 }
+
+// ReadTyped reads the value only (as Read1) with the typed conventions (keys of typed maps by their
+// representation string); a panic is returned as an invalid value carrying the text.
+func ReadTyped(n datamodel.Node) (v Val) {
+	defer func() {
+		if x := recover(); x != nil {
+			v = Str("\x00PANIC:" + fmt.Sprint(x))
+		}
+	}()
+	o := &Observer{Typed: true}
+	return o.Read(n, "")
+}
